@@ -37,7 +37,7 @@ Definition check_case (c : c04case) : N * N :=
                   Nat.eqb (n_mixed m) mx && Nat.eqb (n_dupkeys m) dk && Nat.eqb (n_paren m) pc &&
                   Nat.eqb (n_tablecmp m) tc && Nat.eqb (n_typecheck m) ty in
       (* never on a false (value-judged) condition; always on the canonical spelling *)
-      let over := Nat.ltb (count cond_div0 ns) d0 || Nat.ltb (count cond_nan ns) nn || Nat.ltb (count cond_revloop ns) rl in
+      let over := Nat.ltb (count cond_div0 ns) d0 || Nat.ltb (count cond_nan ns) nn || Nat.ltb (count cond_revloop_wide ns) rl in
       (* duplicate_keys: never more reports than there are keys that denote an already declared value *)
       let over_dk := Nat.ltb (fold_right (fun n a => (vdup_keys_count n + a)%nat) O ns) dk in
       let under := Nat.ltb d0 (count is_div0 ns) || Nat.ltb nn (count is_compare_nan ns) || Nat.ltb rl (count is_reverse_loop ns)
